@@ -592,43 +592,70 @@ func main() {
 			continue
 		}
 		args := cmds2[pd.cmd].Args
-		var single []gendrv.Cmd
-		type pv struct{ pos, val int }
-		var pvs []pv
-		for _, ps := range strings.Split(args[3], ",") {
-			for _, vs := range strings.Split(args[4], ",") {
-				pos, _ := strconv.Atoi(ps)
-				val, _ := strconv.Atoi(vs)
-				if pos < len(pd.input) && int(pd.input[pos]) != val {
-					single = append(single, gendrv.Cmd{Verb: "fastcorrupt", Args: []string{args[0], args[1], args[2], ps, vs}})
-					pvs = append(pvs, pv{pos, val})
-				}
-			}
-		}
 		l2 := lim
-		l2.Chunk = 40
-		rs, cr, err := fastdrv.Run(b, single, l2)
+		l2.Chunk = 8
+		// stage A: one command per position (all values); stage B: one command per (position, value) of the
+		// positions that died
+		var posCmds []gendrv.Cmd
+		var poss []string
+		for _, ps := range strings.Split(args[3], ",") {
+			posCmds = append(posCmds, gendrv.Cmd{Verb: "fastcorrupt", Args: []string{args[0], args[1], args[2], ps, args[4]}})
+			poss = append(poss, ps)
+		}
+		ra, cr, err := fastdrv.Run(b, posCmds, l2)
 		if err != nil {
-			fmt.Fprintln(os.Stderr, "run (crash isolation):", err)
+			fmt.Fprintln(os.Stderr, "run (crash isolation A):", err)
 			os.Exit(1)
 		}
 		st.DriverCrashes += cr
+		type obsT struct {
+			Crash bool              `json:"crash"`
+			Base  json.RawMessage   `json:"base"`
+			Runs  []json.RawMessage `json:"runs"`
+		}
 		var base json.RawMessage
 		var runs []json.RawMessage
-		for i, r := range rs {
-			var o struct {
-				Crash bool              `json:"crash"`
-				Base  json.RawMessage   `json:"base"`
-				Runs  []json.RawMessage `json:"runs"`
-			}
+		for pi, r := range ra {
+			var o obsT
 			json.Unmarshal(r, &o)
-			if o.Crash || len(o.Runs) != 1 {
-				j, _ := json.Marshal([]interface{}{pvs[i].pos, pvs[i].val, "C", -1, nil})
-				runs = append(runs, j)
+			if !o.Crash {
+				base = o.Base
+				runs = append(runs, o.Runs...)
 				continue
 			}
-			base = o.Base
-			runs = append(runs, o.Runs[0])
+			var single []gendrv.Cmd
+			var vals []int
+			pos, _ := strconv.Atoi(poss[pi])
+			for _, vs := range strings.Split(args[4], ",") {
+				val, _ := strconv.Atoi(vs)
+				if pos < len(pd.input) && int(pd.input[pos]) != val {
+					single = append(single, gendrv.Cmd{Verb: "fastcorrupt", Args: []string{args[0], args[1], args[2], poss[pi], vs}})
+					vals = append(vals, val)
+				}
+			}
+			rs, cr, err := fastdrv.Run(b, single, l2)
+			if err != nil {
+				fmt.Fprintln(os.Stderr, "run (crash isolation B):", err)
+				os.Exit(1)
+			}
+			st.DriverCrashes += cr
+			for i, r1 := range rs {
+				var o1 obsT
+				json.Unmarshal(r1, &o1)
+				if o1.Crash || len(o1.Runs) != 1 {
+					// "C" only for the Go runtime's out-of-memory abort; any other death of the process is
+					// reported like a panic the model has to explain
+					letter := "P"
+					if strings.Contains(string(r1), "out of memory") {
+						letter = "C"
+					}
+					j, _ := json.Marshal([]interface{}{pos, vals[i], letter, -1, nil})
+					runs = append(runs, j)
+					continue
+				}
+				base = o1.Base
+				runs = append(runs, o1.Runs[0])
+			}
 		}
 		if base == nil {
 			continue // every single run died: keep the whole case as a crash
